@@ -1001,7 +1001,8 @@ class Message(ABC):
             value = self.__raw_get(name)
             if value is not PLACEHOLDER:
                 kwargs[name] = deepcopy(value)
-        return self.__copy_internal_state(self.__class__(**kwargs))  # type: ignore
+        presence = self.__sub_message_presence()
+        return self.__copy_internal_state(self.__class__(**kwargs), presence)  # type: ignore
 
     def __copy__(self: T, _: Any = {}) -> T:
         kwargs = {}
@@ -1009,13 +1010,26 @@ class Message(ABC):
             value = self.__raw_get(name)
             if value is not PLACEHOLDER:
                 kwargs[name] = value
-        return self.__copy_internal_state(self.__class__(**kwargs))  # type: ignore
+        presence = self.__sub_message_presence()
+        return self.__copy_internal_state(self.__class__(**kwargs), presence)  # type: ignore
 
-    def __copy_internal_state(self: T, copy: T) -> T:
+    def __sub_message_presence(self) -> Dict[str, bool]:
+        return {
+            name: value._serialized_on_wire
+            for name in self._betterproto.sorted_field_names
+            for value in (self.__raw_get(name),)
+            if isinstance(value, Message)
+        }
+
+    def __copy_internal_state(self: T, copy: T, presence: Dict[str, bool]) -> T:
         # The constructor cannot know about unknown fields and takes lazily
         # created default sub-messages for values that were set.
         copy.__dict__["_serialized_on_wire"] = self._serialized_on_wire
         copy.__dict__["_unknown_fields"] = self._unknown_fields
+        # ... and it marks sub-messages without fields as present (a shallow copy
+        # shares them with the original)
+        for name, present in presence.items():
+            copy.__raw_get(name).__dict__["_serialized_on_wire"] = present
         return copy
 
     @classproperty
